@@ -28,8 +28,9 @@ def _constraint(rng, cfg, factors, design_ids, approxT, cid, kinds):
     return None
 
 
-def gen_parts(rng, cfg, tier, n_basic=None, derived=True):
-    """Factors for a combinator design: 2-3 small basic factors and maybe one derived factor."""
+def gen_parts(rng, cfg, tier, n_basic=None, derived=True, six=False):
+    """Factors for a combinator design: 2-3 small basic factors and maybe one derived factor.
+    `six`: the first two basic factors have 2 and 3 unweighted levels (a crossing of six equally weighted combinations)."""
     nb = n_basic or rng.choice([2, 2, 3])
     factors = []
     for i in range(nb):
@@ -37,6 +38,8 @@ def gen_parts(rng, cfg, tier, n_basic=None, derived=True):
         w = None
         if cfg.get("weights") and rng.random() < 0.25:
             w = [rng.choice([1, 2]) for _ in range(n)]
+        if six and i < 2:
+            n, w = (2, 3)[i], None
         factors.append(_basic(i, n, w))
     if derived and cfg.get("focus") == "parallel-start":
         c = dict(_small_cfg(rng, cfg), win_within=False, win_transition=True, win_window=rng.random() < 0.3)
@@ -59,7 +62,8 @@ SCOPED_KINDS = ["atmost", "atleast", "exactlyrow", "exactlyk", "pin"]
 
 def gen_combinator_design(rng, cfg, tier, shape=None):
     shape = shape or rng.choice(["multicross", "repeat", "repeat", "merge", "nest"])
-    factors = gen_parts(rng, cfg, tier)
+    long_rep = shape == "repeat" and rng.random() < 0.12     # a repetition long enough for runs of three and more (5-6 trials)
+    factors = gen_parts(rng, cfg, tier, six=long_rep and rng.random() < 0.6)
     ids = [f["id"] for f in factors]
     basics = [f["id"] for f in factors if f["kind"] == "basic"]
     derived = [f["id"] for f in factors if f["kind"] == "derived" and f["window"]["stride"] == 1]
@@ -93,8 +97,15 @@ def gen_combinator_design(rng, cfg, tier, shape=None):
                 crossings.append(c)
         if len(crossings) < 2:
             crossings = [[basics[0]], [basics[1]]]
+        sub = len(basics) >= 2 and size_of(basics[:2]) <= cfg.get("max_cross", 6) + 2 and rng.random() < 0.2
+        if sub:
+            # a crossing that is a strict part of another one: implied by it in the weight and equal modes, a requirement of
+            # its own (balance within every stretch of its own length) in repeat mode
+            crossings = [basics[:2], [rng.choice(basics[:2])]]
+            if rng.random() < 0.3:
+                crossings.reverse()
         T = max(size_of(c) for c in crossings)
-        mode = rng.choice(MODES)
+        mode = rng.choice(MODES) if not sub else rng.choice(["repeat", "repeat", "weight", "equal"])
         sizes = set(size_of(c) for c in crossings)
         if mode == "equal" and len(sizes) > 1 and rng.random() < 0.8:
             mode = rng.choice(["weight", "repeat"])
@@ -118,7 +129,8 @@ def gen_combinator_design(rng, cfg, tier, shape=None):
     if shape == "repeat":
         pool = basics + (derived if cfg.get("cross_derived") and rng.random() < 0.5 else [])
         crossing = rng.sample(pool, rng.randint(1, min(2, len(pool))))
-        long_rep = rng.random() < 0.12          # a repetition long enough for runs of three and more (5-6 trials)
+        if long_rep and size_of(basics[:2]) == 6 and rng.random() < 0.8:
+            crossing = basics[:2]
         while size_of(crossing) > (6 if long_rep else 4) and len(crossing) > 1:
             crossing.pop()
         s = size_of(crossing)
@@ -133,9 +145,10 @@ def gen_combinator_design(rng, cfg, tier, shape=None):
         reps = rng.choice([1, 2, 2, 3])
         n = s * reps
         pre = 1 if any(fb[c]["kind"] == "derived" and fb[c]["window"]["width"] > 1 for c in crossing) else 0
-        if rng.random() < 0.15:
-            n += rng.choice([1, -1])          # non-multiple
-        n = max(1, min(n + pre, cfg["max_T"] + 2))
+        if rng.random() < (0.7 if long_rep else 0.15):
+            n += rng.choice([1, -1] if not long_rep else [-1, -1, -1, 1])          # non-multiple
+        # (a long repetition may end in a partial round of five trials and more: 11 or 17 trials of a 6-combination crossing)
+        n = max(1, min(n + pre, cfg["max_T"] + 2 if not (long_rep and s >= 5) else 3 * s + 1))
         outer_cons = [{"id": "mo", "kind": "mintrials", "n": n}] if rng.random() < 0.9 else []
         outer_cons += cons(rng.choice([0, 0, 1]), SCOPED_KINDS, n)
         return {"factors": factors, "block": {"kind": "repeat", "block": inner, "constraints": outer_cons}}
